@@ -48,8 +48,12 @@ BADTAGS: set = set()
 BUDGET = 200
 
 
-class BudgetError(RuntimeError):
-    pass
+class BudgetError(BaseException):
+    """not an Exception on purpose: the composite's signal loop swallows Exceptions and would spin forever"""
+
+
+def _alarm(signum, frame):
+    raise BudgetError("time budget exceeded")
 
 
 @as_function_node("out")
@@ -174,8 +178,13 @@ def snapshot(case, scopes, ordered):
     return out
 
 
+_HANGS = [0]
+
+
 def run_impl(case):
     global BADTAGS
+    if _HANGS[0] >= 6:      # the library spins (only ever seen on broken trees): do not spend 3 s on every case
+        return ["BudgetError", [], [], [], "skipped after repeated hangs"]
     LOG.clear()
     BADTAGS = {f"{lv}.{i}" for lv, L in enumerate(case["levels"]) for i in L["bad"]}
     scopes = build(case)
@@ -183,6 +192,9 @@ def run_impl(case):
     before = snapshot(case, scopes, ordered)
     target = scopes[0][1][case["target"]]
     ret = None
+    import signal
+    old_handler = signal.signal(signal.SIGALRM, _alarm)
+    signal.alarm(3)
     try:
         if case["parents"] and case.get("call", False):
             r = target()
@@ -194,7 +206,11 @@ def run_impl(case):
         if isinstance(e, (KeyboardInterrupt, SystemExit)):
             raise
         res = type(e).__name__
+        if isinstance(e, BudgetError):
+            _HANGS[0] += 1
     finally:
+        signal.alarm(0)
+        signal.signal(signal.SIGALRM, old_handler)
         BADTAGS = set()
     log = [[int(t.split(".")[0]), int(t.split(".")[1])] for t in LOG]
     after = snapshot(case, scopes, ordered)
@@ -400,6 +416,8 @@ def oracle(case, obs):
     if not (isinstance(obs, list) and len(obs) == 5):
         return f"driver: unexpected observation {obs!r}"[:300]
     res, log, after, before, ret = obs
+    if res == "BudgetError":
+        return "hang: the pull did not finish within its call/time budget"
     ex = expectation(case)
     allowed = set(ex["allowed"])
     entries = [tuple(e) for e in log]
@@ -626,7 +644,7 @@ def variants(rng, levels, target, parents, thorough):
 
 def generate(ctx):
     rng = ctx.rng
-    n_graphs = ctx.n(75, 900)
+    n_graphs = ctx.n(75, 600)
     thorough = not ctx.quick
     cases, seen = [], set()
     for _ in range(n_graphs):
